@@ -262,3 +262,78 @@ Theorem C10_optimized_dnf_uninterrupted_roundtrip : forall b, Canonical b ->
   exists cs, to_optimized_dnf_uninterrupted b = Ok cs /\ mk_dnf (nvars b) cs = Ok b.
 Proof. exact optimized_dnf_roundtrip. Qed.
 Print Assumptions C10_optimized_dnf_uninterrupted_roundtrip.
+
+(* ============================================================================================================== *)
+(* the panic condition of the library's own mk_dnf recursion on ARBITRARY clause lists (Proofs/Gaps3Dnf.v).
+   (The CNF twin is exact already: C10_mk_cnf_faithful_panic_iff — its leaves go through the asserting
+   mk_disjunctive_clause, so it panics exactly on an out-of-range clause.)
+
+   The only assertion of the DNF recursion that can fire is the duplicate check of the base case, reached with
+   var == num_vars by two clauses the three-way split never separated: `clash nv cs` = two clauses of the list
+   that agree on every variable below nv and are different partial valuations (so they differ on a variable >= nv).
+   `one_cell nv cs` = the out-of-range clauses of the list pairwise agree below nv (they all fall in one cell). *)
+From BddVerif Require Import Proofs.Gaps3Dnf.
+
+Theorem C10_clash_def : forall nv cs,
+  (clash nv cs <-> exists c1 c2, In c1 cs /\ In c2 cs /\ (forall x, x < nv -> pv_get c1 x = pv_get c2 x) /\ pv_eq c1 c2 = false) /\
+  (one_cell nv cs <-> forall c1 c2, In c1 cs -> In c2 cs -> cells_in_range nv c1 = false -> cells_in_range nv c2 = false ->
+                        forall x, x < nv -> pv_get c1 x = pv_get c2 x).
+Proof. intros; split; reflexivity. Qed.
+Print Assumptions C10_clash_def.
+
+(* exact, whenever the out-of-range clauses lie in one cell of the split — in particular for every list with a single
+   out-of-range clause (the asymmetric case), and trivially for in-range lists (no clash, no panic) *)
+Theorem C10_mk_dnf_faithful_panic_iff : forall nv cs, one_cell nv cs ->
+  (mk_dnf_faithful nv cs = Panic <-> clash nv cs).
+Proof. exact mk_dnf_faithful_panic_iff. Qed.
+Print Assumptions C10_mk_dnf_faithful_panic_iff.
+
+(* the asymmetric case spelled out: one out-of-range clause c0 (possibly repeated) among in-range clauses is rejected
+   exactly when some other clause, different from it, agrees with it on all variables below nv; alone in its cell it is
+   accepted (and a malformed diagram is built), whereas the fold model panics (C10_mk_dnf_panic_iff) *)
+Theorem C10_mk_dnf_faithful_panic_iff_single : forall nv cs c0, In c0 cs -> cells_in_range nv c0 = false ->
+  (forall c, In c cs -> cells_in_range nv c = false -> pv_eq c c0 = true) ->
+  (mk_dnf_faithful nv cs = Panic <->
+   exists c, In c cs /\ (forall x, x < nv -> pv_get c x = pv_get c0 x) /\ pv_eq c c0 = false).
+Proof. exact mk_dnf_faithful_panic_iff_single. Qed.
+Print Assumptions C10_mk_dnf_faithful_panic_iff_single.
+
+(* arbitrary lists, no hypothesis: the two-sided sandwich.  Panic implies a clash; a clash excludes Ok (the answer is
+   Panic or OutOfFuel); OutOfFuel and clash both need an out-of-range clause *)
+Theorem C10_mk_dnf_faithful_panic_sandwich : forall nv cs,
+  (mk_dnf_faithful nv cs = Panic -> clash nv cs) /\
+  (clash nv cs -> mk_dnf_faithful nv cs = Panic \/ mk_dnf_faithful nv cs = OutOfFuel) /\
+  ((exists r, mk_dnf_faithful nv cs = Ok r) -> ~ clash nv cs) /\
+  (mk_dnf_faithful nv cs = OutOfFuel -> exists c, In c cs /\ cells_in_range nv c = false) /\
+  (clash nv cs -> exists c, In c cs /\ cells_in_range nv c = false).
+Proof.
+  intros nv cs. destruct (mk_dnf_faithful_outcomes nv cs) as (H1 & H2 & H3 & H4).
+  split; [exact H1|]. split; [exact (mk_dnf_faithful_clash_not_ok nv cs)|]. split; [exact H2|]. split; [exact H3|exact H4].
+Qed.
+Print Assumptions C10_mk_dnf_faithful_panic_sandwich.
+
+(* the asymmetric case on a concrete list (x0 /\ x2 over the two variables x0, x1) *)
+Example C10_mk_dnf_faithful_asymmetric_example :
+  let far := [Some true; None; Some true] in
+  cells_in_range 2 far = false /\
+  (exists r, mk_dnf_faithful 2 [far] = Ok r) /\ mk_dnf 2 [far] = Panic /\
+  (exists r, mk_dnf_faithful 2 [[Some false; Some true]; far] = Ok r) /\ ~ clash 2 [[Some false; Some true]; far] /\
+  mk_dnf_faithful 2 [[Some false; Some true]; far; [Some true]] = Panic /\ clash 2 [[Some false; Some true]; far; [Some true]].
+Proof. exact mk_dnf_faithful_asymmetric. Qed.
+Print Assumptions C10_mk_dnf_faithful_asymmetric_example.
+
+(* the UNCONDITIONAL `Panic <-> clash` is false for the model: the cells are evaluated in the order dont_care,
+   has_true, has_false, and the two malformed leaves of has_true = {c1, c2} (x3 > num_vars) make `or` exhaust its fuel
+   (the Rust apply loop re-pushes the same task forever on such operands) before the clash of has_false = {c3, c4} is
+   reached; nor does the absence of a clash give Ok *)
+Example C10_mk_dnf_faithful_panic_iff_refuted :
+  let c1 := [Some true; Some true; None; Some true] in
+  let c2 := [Some true; Some false; None; Some true] in
+  let c3 := [Some false; None; Some true] in
+  let c4 := [Some false; None; Some false] in
+  clash 2 [c1; c2; c3; c4] /\ mk_dnf_faithful 2 [c1; c2; c3; c4] = OutOfFuel /\
+  mk_dnf_faithful 2 [c3; c4; c1; c2] = OutOfFuel /\ mk_dnf_faithful 2 [c3; c4] = Panic /\
+  ~ one_cell 2 [c1; c2; c3; c4] /\
+  ~ clash 2 [c1; c2] /\ mk_dnf_faithful 2 [c1; c2] = OutOfFuel.
+Proof. exact mk_dnf_faithful_panic_iff_refuted. Qed.
+Print Assumptions C10_mk_dnf_faithful_panic_iff_refuted.
